@@ -218,9 +218,20 @@ pub fn run(env: &Env, run: &Run) -> (Stats, Coverage) {
         let groups = crate::props::rules::decomposition_groups(env);
         let shards: Vec<Stats> = groups
             .par_iter()
-            .map(|g| {
+            .map(|g0| {
                 let mut st = Stats::default();
                 st.states += 1;
+                // + the upper- and lower-cased variants of every spelling (J + caron against
+                // j-caron: only the lowercase pair has a precomposed form, so the order of case
+                // mapping and normalisation inside compare shows)
+                let mut g: Vec<String> = g0.clone();
+                for s in g0.iter() {
+                    for v in [s.to_uppercase(), s.to_lowercase()] {
+                        if !g.contains(&v) {
+                            g.push(v);
+                        }
+                    }
+                }
                 for p in Prof::ALL {
                     let canons: Vec<Expect> = g.iter().map(|s| canon(env, p, s)).collect();
                     for i in 0..g.len() {
